@@ -394,7 +394,7 @@ def c10_extra(run, tier, bins):
 
 PROPS.update({
     "C16": {
-        "theorem_modules": ["FlacVerif.Theorems.C16crc", "FlacVerif.Theorems.C16", "FlacVerif.Theorems.C02Gen", "FlacVerif.Theorems.C02Hdr", "FlacVerif.Theorems.C15Gen"], "uses_gen": ["tables", "headers", "writer", "decode"],
+        "theorem_modules": ["FlacVerif.Theorems.C16crc", "FlacVerif.Theorems.C16", "FlacVerif.Theorems.C02Gen", "FlacVerif.Theorems.C02Hdr", "FlacVerif.Theorems.C15Gen", "FlacVerif.Theorems.C16Gen"], "uses_gen": ["constants", "tables", "headers", "writer", "verify", "decode", "parser"],
         "streams": {"quick": [("parser", ["--cases", 14, "--burst-stride", 40, "--random", 1500])],
                     "thorough": [("parser", ["--cases", 24, "--burst-stride", 4, "--random", 30000])],
                     "search": [("parser", ["--cases", 30, "--burst-stride", 4, "--random", 20000])]},
@@ -455,7 +455,7 @@ PROPS.update({
         "assumptions": ["stable (fakesimd) build; the simd-nightly path of weighted_delay_prod_sum_impl splits by heap alignment (read only, noted in DESIGN.md)"],
     },
     "C15": {
-        "theorem_modules": ["FlacVerif.Theorems.C15", "FlacVerif.Theorems.C02Hdr", "FlacVerif.Theorems.C15Gen"], "uses_gen": ["tables", "headers", "writer", "decode"],
+        "theorem_modules": ["FlacVerif.Theorems.C15", "FlacVerif.Theorems.C02Hdr", "FlacVerif.Theorems.C15Gen", "FlacVerif.Theorems.C16Gen"], "uses_gen": ["constants", "tables", "headers", "writer", "verify", "decode", "parser"],
         "streams": {"quick": [("parser", ["--cases", 14, "--burst-stride", 64, "--random", 200]), ("stream", ["--cases", 150, "--max-samples", 5000]), ("comp", ["--cases", 100])],
                     "thorough": [("parser", ["--cases", 40, "--burst-stride", 16, "--random", 2000]), ("stream", ["--cases", 1333, "--max-samples", 24000]), ("comp", ["--cases", 3000])],
                     "search": [("stream", ["--cases", 1000, "--max-samples", 9000])]},
